@@ -243,14 +243,17 @@ impl Epoch {
     }
 
     #[must_use]
-    /// Returns the weekday in provided time scale **ASSUMING** that the reference epoch of that time scale is a Monday.
-    /// You _probably_ do not want to use this. You probably either want `weekday()` or `weekday_utc()`.
-    /// Several time scales do _not_ have a reference day that's on a Monday, e.g. BDT.
+    /// Returns the weekday of the calendar date of this epoch in the provided time scale.
+    /// You probably either want `weekday()` (TAI) or `weekday_utc()`.
     pub fn weekday_in_time_scale(&self, time_scale: TimeScale) -> Weekday {
-        // Count the whole days with integers: a floating point number of days would round up in the last
+        // Count the whole days since 1900-01-01 (a Monday) of that time scale's calendar: several time scales
+        // have a reference day that is not a Monday (e.g. GPST counts from Sunday 1980-01-06).
+        // The days are counted with integers: a floating point number of days would round up in the last
         // fraction of a microsecond of a day. One century is a whole number of days, and the nanoseconds
         // always count forward, so this is the floored number of days, including for negative durations.
-        let (centuries, nanoseconds) = self.to_duration_in_time_scale(time_scale).to_parts();
+        let (centuries, nanoseconds) = (self.to_duration_in_time_scale(time_scale)
+            + time_scale.gregorian_epoch_offset())
+        .to_parts();
         let days = i64::from(centuries) * crate::DAYS_PER_CENTURY_I64
             + (nanoseconds / NANOSECONDS_PER_DAY) as i64;
         (days.rem_euclid(Weekday::DAYS_PER_WEEK_I128 as i64) as u8).into()
